@@ -822,6 +822,22 @@ func (env *SpecEnv) evalCall(n *SNode) Val {
 	case "ispow2":
 		st.fc.V.ispow2Prelude()
 		return vBool(sApp("g_ispow2", env.eval(n.Args[0]).S))
+	case "allocated":
+		// allocated(x): the reference (or reference-valued ghost integer) x is nil or an object that exists in the
+		// state the expression is evaluated in (old state inside old())
+		v := env.eval(n.Args[0])
+		bound := st.alloc
+		if env.heap != nil {
+			bound = st.fc.entryAlloc()
+			if env.old != nil && env.old.alloc != "" {
+				bound = env.old.alloc
+			}
+		}
+		x := v.S
+		if v.K == KNil {
+			x = "0"
+		}
+		return vBool(sAnd(sCmp("<=", "0", x), sCmp("<", x, bound)))
 	case "cast":
 		// cast(TypeName, e): the reference e viewed as *TypeName (unsafe.Pointer fields hold typed nodes)
 		tn := n.Args[0].Text
